@@ -33,7 +33,12 @@ pub fn gen_case(rng: &mut Rng, idx: u64, allow_raw: bool) -> RxCase {
         0..=2 => {
             let gen = RxGen { allow_algebra: false, allow_raw_not: false, max_depth: 3 };
             let rx = pool::gen_nonempty(rng, &gen);
-            let g = GCase::regex(&format!("c04rx{idx}"), &rx.to_regex()).tag("entry_from_regex");
+            // `\/` is a legal spelling of `/` (patterns ported from JavaScript): half of the cases use it
+            let mut text = rx.to_regex();
+            if text.contains('/') && rng.chance(1, 2) {
+                text = text.replace('/', "\\/");
+            }
+            let g = GCase::regex(&format!("c04rx{idx}"), &text).tag("entry_from_regex");
             RxCase { rx, g, entry: "from_regex" }
         }
         3..=4 => {
@@ -389,7 +394,7 @@ pub fn run(ctx: &mut Ctx) {
     if let Ok(b) = vocab::vbpe_noncanon(1024) {
         multi.push(b);
     }
-    let n_cases = ctx.pick(2400, 60000);
+    let n_cases = ctx.pick(2400, 120000);
     for idx in 0..n_cases {
         if !ctx.mine(idx) {
             continue;
